@@ -3211,3 +3211,176 @@ def cli13(ctx):
     if n < 2:
         raise AnchorMissing("CLI-13: %d hand-overs of a rule list in get_entry (expected 2: parse_entry, Entry::from)" % n)
     return r
+
+
+# ---------------------------------------------------------------- PAN-15: a rejected insertion point still moves the scan on
+
+def pan15(ctx):
+    """The insertion scan of SubRule::transform: `while in_bounds(pos) { match insertion_match(word, pos) { Some(ins) => { if
+    insertion_match_exceptions(..) { pos.increment(); continue } insert .. } } }`. On the way from a rejected insertion point
+    (the exception holds) back to the next insertion_match nothing is inserted, so the only thing that ends the scan is the
+    cursor: on every such path `pos` is stepped by SegPos::increment, and it is not assigned anything else (the insertion
+    point `ins` may lie at or before `pos` -- `(s-1, len)` for a boundary -- and stepping from it finds the same point again)."""
+    from engine_pan import _single_def
+    r = RuleResult("PAN-15", "SubRule::transform, insertion scan: between a rejected insertion point and the next trial the cursor is stepped by SegPos::increment and is assigned nothing else", floor=2)
+    lib = ctx.lib
+    b = ctx.fn(lib, "asca::subrule::SubRule::transform")
+    cfg = b.cfg
+    calls = list(b.calls())
+    M = [i for i, t in calls if (callee_path(t) or "") == "asca::subrule::SubRule::insertion_match"]
+    X = [i for i, t in calls if (callee_path(t) or "") == "asca::subrule::SubRule::insertion_match_exceptions"]
+    I = {i for i, t in calls if (callee_path(t) or "") == "asca::subrule::SubRule::insert"}
+    if len(M) != 1 or not X or not I:
+        raise AnchorMissing("PAN-15: transform: insertion_match (%d), insertion_match_exceptions (%d), insert (%d) call sites" % (len(M), len(X), len(I)))
+    m = M[0]
+
+    def resolve(l, hops=0):
+        d = _single_def(b, l)
+        if d is not None and hops < 5:
+            if d.get("k") == "use" and d["op"].get("k") in ("copy", "move") and not d["op"]["pl"]["p"]:
+                return resolve(d["op"]["pl"]["l"], hops + 1)
+            if d.get("k") == "ref" and not d["pl"]["p"]:
+                return d["pl"]["l"]
+        return l
+    t = b.blocks[m]["t"]
+    if len(t["args"]) < 3 or t["args"][2].get("k") not in ("copy", "move"):
+        raise AnchorMissing("PAN-15: insertion_match is not handed the cursor as a plain local")
+    P = resolve(t["args"][2]["pl"]["l"])
+    incs = {i for i, tt in calls if (callee_path(tt) or "") == "asca::word::SegPos::increment" and tt["args"] and tt["args"][0].get("k") in ("copy", "move")
+            and resolve(tt["args"][0]["pl"]["l"]) == P}
+    for x in X:
+        start = b.blocks[x]["t"].get("t")
+        if start is None:
+            continue
+        fwd = cfg.reachable_from(start, avoid=I | {m})
+        # blocks on a path start -> m that avoids `insert`
+        on_path = {y for y in fwd if m in cfg.reachable_from(y, avoid=I)}
+        if not on_path:
+            r.inst("transform: no way back from insertion_match_exceptions to the next trial without an insertion", fn_loc(b, None), "ok", nontrivial=False)
+            continue
+        # (a) must pass an increment of the cursor
+        skip = cfg.reachable_from(start, avoid=I | incs | {m})
+        no_step = any(m in cfg.succ[y] for y in skip if y not in incs)
+        if start == m:
+            no_step = True
+        r.inst("transform: every path from a rejected insertion point to the next insertion_match steps the cursor (SegPos::increment)", fn_loc(b, None), "report" if no_step else "ok")
+        if no_step:
+            r.report("PAN-15|transform|no-step", fn_loc(b), b.path,
+                     "after insertion_match_exceptions answered true the scan can reach the next insertion_match without SegPos::increment on the cursor: the same insertion point is found and rejected again, forever")
+        # (b) no other assignment of the cursor
+        bad = []
+        for y in sorted(on_path):
+            for s in b.blocks[y]["s"]:
+                if s["k"] == "assign" and s["lhs"]["l"] == P and not s["lhs"]["p"]:
+                    bad.append(s.get("loc"))
+        r.inst("transform: on that path the cursor is assigned nothing (only stepped)", fn_loc(b, None), "report" if bad else "ok")
+        if bad:
+            r.report("PAN-15|transform|cursor-assigned", "%s" % (bad[0] or fn_loc(b)).rsplit(":", 1)[0], b.path,
+                     "between a rejected insertion point and the next trial the scan cursor is overwritten (not just stepped): resuming from the insertion point -- which for a `$`/`%` context is the end of the previous syllable, at or before the cursor -- finds the very same point again and the scan never ends (`* > e / _$ | _$`)")
+    return r
+
+
+# ---------------------------------------------------------------- TAB-10: two base phones are two different segments
+
+def tab10(ctx):
+    """The grapheme table (src/cardinals.json, read into CARDINALS_MAP) gives every base phone its own feature bundle. Two
+    graphemes with the same bundle are one segment to the interpreter: a rule about the one rewrites words that only
+    contain the other (`ᵐb̪ > x` on `ᵐp̪a`), and the word is printed with the other spelling."""
+    r = RuleResult("TAB-10", "src/cardinals.json is injective: no two base phones share one feature bundle (root, manner, laryngeal, place)", floor=300)
+    cj = json.loads(ctx.read("src/cardinals.json"))
+    # the table must be the one the library reads
+    lib = ctx.lib
+    src = ctx.read("src/lib.rs") + ctx.read("src/seg.rs") + ctx.read("src/word.rs")
+    if "cardinals.json" not in src:
+        raise AnchorMissing("TAB-10: src/cardinals.json is not included by the library any more")
+    by = {}
+    for k, v in cj.items():
+        key = (v.get("root"), v.get("manner"), v.get("laryngeal"), v.get("place"))
+        by.setdefault(key, []).append(k)
+    for k, v in cj.items():
+        key = (v.get("root"), v.get("manner"), v.get("laryngeal"), v.get("place"))
+        twins = [x for x in by[key] if x != k]
+        first = by[key][0] == k
+        r.inst("%s has a feature bundle of its own" % k, "src/cardinals.json", "ok" if not twins else "report")
+        if twins and first:
+            r.report("TAB-10|%s" % "=".join(by[key]), "src/cardinals.json", "CARDINALS_MAP",
+                     "the base phones %s have the same feature bundle %s: to the interpreter they are one segment, so a rule about one of them rewrites a word that only contains the other, and the word is printed with the first spelling" % (" and ".join(by[key]), dict(zip(("root", "manner", "laryngeal", "place"), key))))
+    if len(cj) < 300:
+        raise AnchorMissing("TAB-10: cardinals.json has %d entries (expected >= 300)" % len(cj))
+    return r
+
+
+# ---------------------------------------------------------------- SYN-5: the literal that leaves get_ipa carries its diacritics
+
+def syn5(ctx):
+    """`kʷ:[-long]`: get_ipa reads the base phone, applies the diacritics that follow to it, then reads an optional
+    parameter list. `Segment` is `Copy`, so a second binding of the bare phone compiles anywhere the decorated one is
+    meant. The segment put into every `ParseElement::Ipa(..)` / returned tuple of get_ipa (rule and alias parser) is the
+    binding the diacritics were applied to: the receiver of check_and_apply_diacritic, or the result of a local function
+    that applies them."""
+    r = RuleResult("SYN-5", "get_ipa (rule and alias parser): the Segment handed out is the binding check_and_apply_diacritic was applied to (or the result of a helper that applies it), on the plain path and on the `:[params]` path", floor=4)
+    lib = ctx.lib
+    n = 0
+
+    def applies(path, depth=0):
+        cb = next((x for x in lib.bodies if x.path == path and x.hir and x.kind != "closure"), None)
+        if cb is None or depth > 2:
+            return False
+        for y in hirq.walk(cb.hir["body"]):
+            if y["e"] == "mcall" and y["name"] == "check_and_apply_diacritic":
+                return True
+            if y["e"] == "mcall" and (y.get("def") or "").startswith("asca::") and applies(y["def"], depth + 1):
+                return True
+        return False
+
+    for path in ("asca::parser::Parser::get_ipa", "asca::alias::parser::AliasParser::get_ipa"):
+        b = ctx.fn(lib, path)
+        root = b.hir["body"]
+        binds = Bindings(root, b.hir.get("params"))
+        good = set()
+        for y in hirq.walk(root):
+            if y["e"] == "mcall" and y["name"] == "check_and_apply_diacritic":
+                rv = hirq.strip(y["recv"])
+                if rv.get("e") == "path" and "hid" in rv:
+                    good.add(rv["hid"])
+            if y["e"] == "let" and y.get("init") is not None and y["pat"].get("p") == "bind" and "hid" in y["pat"]:
+                for s in _value_sources(y["init"], binds):
+                    if s[0] == "call" and s[1].startswith("asca::") and applies(s[1]):
+                        good.add(y["pat"]["hid"])
+        if not good:
+            raise AnchorMissing("SYN-5: %s applies no diacritics (no check_and_apply_diacritic, no helper that does)" % path)
+
+        def hid_of(e, depth=0):
+            e = hirq.strip(e)
+            if isinstance(e, dict) and e.get("e") == "path" and "hid" in e:
+                if e["hid"] in good or depth > 4:
+                    return e["hid"]
+                s = binds.src.get(e["hid"])
+                if s and s[0] == "expr":
+                    inner = hirq.strip(s[1])
+                    if isinstance(inner, dict) and inner.get("e") == "path" and "hid" in inner:
+                        return hid_of(inner, depth + 1)
+                return e["hid"]
+            return None
+        sites = []
+        for y in hirq.walk(root):
+            if y["e"] == "call" and (hirq.strip(y["f"]).get("path") or "").endswith("ParseElement::Ipa") and y["args"]:
+                sites.append((y["args"][0], "ParseElement::Ipa(..)", y.get("ln")))
+            if y["e"] == "call" and (hirq.strip(y["f"]).get("path") or "") == "core::result::Result::Ok" and y["args"]:
+                t = hirq.strip(y["args"][0])
+                if t.get("e") == "tup" and t["items"]:
+                    it = hirq.strip(t["items"][0])
+                    if (it.get("ty") or "").endswith("seg::Segment"):
+                        sites.append((t["items"][0], "Ok((segment, ..))", y.get("ln")))
+        for k, (e, what, ln) in enumerate(sites):
+            n += 1
+            h = hid_of(e)
+            ok = h in good
+            fn = path.rsplit("::", 2)[-2] + "::get_ipa"
+            r.inst("%s: %s #%d hands out the decorated segment" % (fn, what, k), fn_loc(b, ln), "ok" if ok else "report")
+            if not ok:
+                r.report("SYN-5|%s|#%d" % (fn, k), fn_loc(b, ln), b.path,
+                         "the segment put into %s is not the binding the diacritics were applied to (a `Copy` of the bare base phone): `kʷ:[-long]` is parsed as plain `k:[-long]`, so a rule about kʷ rewrites words that only contain k" % what)
+    if n < 4:
+        raise AnchorMissing("SYN-5: %d hand-overs of a segment in the two get_ipa (expected 4)" % n)
+    return r
